@@ -26,7 +26,7 @@ RULE = ('each run: a seeded netlist over the whole catalogue (combinational + se
 REAL = ['py4hw.base.Wire.put/prepare/settle', 'all library primitives', 'py4hw.logic.simulation.Waveform/Sequence/RandomValue']
 STUB = ['stimulus', 'monitoring listener']
 ASSUMPTIONS = ['observation = Wire.value of every wire reachable from the HWSystem (wires created by any Logic, wires attached to any port)']
-PROBES = ['adv_constant_reassigned', 'bidir_clocked', 'double_prepare_block', 'adv_constant', 'adv_reset_value', 'adv_sequence', 'adv_poke', 'listener_observation', 'waveform_samples', 'random_value']
+PROBES = ['shift_amount_grown', 'refused_poke', 'adv_constant_reassigned', 'bidir_clocked', 'double_prepare_block', 'adv_constant', 'adv_reset_value', 'adv_sequence', 'adv_poke', 'listener_observation', 'waveform_samples', 'random_value']
 
 
 def adversarial(rng, w):
@@ -36,7 +36,7 @@ def adversarial(rng, w):
 
 def gen(rs, tier, index):
     rng = rs.get('design')
-    kinds = list(KINDS.values())
+    kinds = [k for k in KINDS.values() if 'manual' not in k.tags]
     n = rng.choice([3, 6, 12, 20]) if tier == 'quick' else rng.choice([6, 15, 40])
     d = netlist.gen_design(rng, n, [k for k in kinds if not k.seq], hier_depth=rng.choice([0, 1]),
                            feedback=0.2, seq_kinds=[k for k in kinds if k.seq], seq_frac=0.3)
@@ -70,6 +70,12 @@ def gen(rs, tier, index):
             else:
                 vec.append(netlist.gen_vector(sr, [i])[0])
         step = {'vec': vec, 'n': sr.choice([1, 1, 2, 4]), 'extra_settle': sr.random() < 0.2}
+        if sr.random() < 0.1:
+            step['refused_poke'] = [sr.randrange(64), sr.choice(['float', 'str', 'none'])]
+        shl = [nd for nd in d['nodes'] if nd['kind'] in ('ShiftLeftConstant', 'ShiftRightConstant')]
+        if shl and sr.random() < 0.3:
+            nd = sr.choice(shl)
+            step['param_n'] = [nd['id'], nd['p']['n'] + sr.randint(1, 12)]       # the shift amount (a block parameter) grows after construction
         consts = [nd for nd in d['nodes'] if nd['kind'] == 'Constant' and not nd.get('guard')]
         if consts and sr.random() < 0.3:
             nd = sr.choice(consts)
@@ -124,7 +130,19 @@ def run(scn, log, st):
         if step.get('const') and step['const'][0] in b.objs:
             b.objs[step['const'][0]].value = step['const'][1]
             st.probe('adv_constant_reassigned')
+        if step.get('param_n') and step['param_n'][0] in b.objs:
+            b.objs[step['param_n'][0]].addParameter('n', step['param_n'][1])
+            st.fault('param_update')
+            st.probe('shift_amount_grown')
         b.set_inputs(vec)
+        if step.get('refused_poke') is not None and d['inputs']:
+            # a poke the library refuses (not an integer): whatever it answers, the wire keeps a value of its width
+            j, what = step['refused_poke']
+            try:
+                b.wires[d['inputs'][j % len(d['inputs'])]['name']].put({'float': 3.5, 'str': '7', 'none': None}[what])
+            except Exception:
+                st.probe('refused_poke')
+            st.fault('refused_poke')
         seams.check_wire_ranges(b.hw, 'after put', si)
         if step['extra_settle']:
             sim.propagateAll()
